@@ -351,6 +351,38 @@ func (in *Interp) makeExternals() map[string]extFn {
 	m["(*log.Logger).Println"] = nop
 	m["log.Default"] = func(fr *frame, a []Value) Value { return (*Value)(nil) }
 
+	// io.Discard.ReadFrom: the real code drains through a pooled 8 KiB scratch
+	// buffer; the model drains through an unbounded scratch buffer whose content
+	// is never looked at (same bytes consumed from the reader; fewer Read calls
+	// for readers that return as much as asked).
+	m["(io.discard).ReadFrom"] = func(fr *frame, a []Value) Value {
+		r := a[1].(Iface)
+		if r.T == nil {
+			panic(runtimeError("invalid memory address or nil pointer dereference"))
+		}
+		readFn := in.findMethod(r.T, "Read")
+		eofVar := in.prog.ImportedPackage("io").Var("EOF")
+		total := tc.BV(64, 0)
+		for iter := 0; ; iter++ {
+			if iter > in.param("unwind", 64) {
+				panic(pathEnd{"unwind", "io.Discard drain loop"})
+			}
+			in.nextObjID++
+			in.path.nvars++
+			buf := &SymSlice{Mem: &SymMem{ID: in.nextObjID, Arr: tc.ArrayVar(fmt.Sprintf("i%d_discard", in.path.nvars))},
+				Off: tc.BV(64, 0), Len: tc.BV(64, 1<<40), Cap: tc.BV(64, 1<<40)}
+			res := in.callSSA(fr, fr.callPos, readFn, []Value{r.V, buf}, nil).(Tuple)
+			total = tc.Bin(OpAdd, total, res[0].(*Term))
+			err := res[1].(Iface)
+			if err.T != nil {
+				if in.branch(in.equals(err, *in.globalAddr(eofVar))) {
+					return Tuple{total, Iface{}}
+				}
+				return Tuple{total, err}
+			}
+		}
+	}
+
 	in.addHarnessIntrinsics(m)
 	in.addHavocIntrinsics(m)
 	return m
